@@ -203,9 +203,13 @@ func runPortfolio(query string, timeout time.Duration, dir string, tag string, w
 		}
 		if (r.verdict == "unsat" || r.verdict == "sat") && res.solver == "" {
 			res.verdict, res.solver, res.secs, res.output = r.verdict, r.name, r.secs, r.out
-			if !waitAll {
+			// a refutation is cross-checked: keep the other solvers running
+			if !waitAll && r.verdict == "unsat" {
 				cancel()
 			}
+		} else if (r.verdict == "unsat" || r.verdict == "sat") && r.verdict != res.verdict {
+			res.verdict = "disagree"
+			res.output += "\n--- " + r.name + " answers " + r.verdict + "\n" + r.out
 		}
 	}
 	if res.solver == "" {
